@@ -81,6 +81,9 @@ pub enum What {
     Replace(Vec<u8>),
     /// pass the message, then the sender disappears
     CrashAfter,
+    /// rushing reflection: wait until the receiver's own message of the same label and occurrence
+    /// has been sent to the corrupted party and send a copy of it back
+    Reflect,
 }
 
 #[derive(Clone, Debug, PartialEq)]
@@ -123,12 +126,14 @@ pub struct FireLog {
 pub struct PlanAdversary {
     pub plan: FaultPlan,
     pub log: Arc<Mutex<FireLog>>,
+    /// what each party tried to send, keyed by (from, to, label, occurrence) - also while it is held back
+    pub stash: std::collections::HashMap<(usize, usize, String, usize), Vec<u8>>,
 }
 
 impl PlanAdversary {
     pub fn new(plan: FaultPlan) -> (Self, Arc<Mutex<FireLog>>) {
         let log = Arc::new(Mutex::new(FireLog::default()));
-        (PlanAdversary { plan, log: log.clone() }, log)
+        (PlanAdversary { plan, log: log.clone(), stash: Default::default() }, log)
     }
 }
 
@@ -144,6 +149,9 @@ fn h(s: &str) -> u64 {
 impl Adversary for PlanAdversary {
     fn on_send(&mut self, meta: &MsgMeta, data: &[u8]) -> Action {
         let mut act = Action::default();
+        if self.plan.actions.iter().any(|a| matches!(a.what, What::Reflect)) {
+            self.stash.insert((meta.from, meta.to, meta.label.to_string(), meta.k), data.to_vec());
+        }
         if let Some(c) = &self.plan.crash {
             if c.party == meta.from && meta.idx_from == c.after_idx {
                 act.crash_sender_after = true;
@@ -177,6 +185,19 @@ impl Adversary for PlanAdversary {
                 },
                 What::Drop => act.drop = true,
                 What::Replace(b) => cur = Some(b.clone()),
+                What::Reflect => {
+                    let theirs = self.stash.get(&(meta.to, meta.from, meta.label.to_string(), meta.k));
+                    match theirs {
+                        Some(x) => cur = Some(x.clone()),
+                        None => {
+                            if meta.held < 20_000 {
+                                act.hold = true;
+                                return act;
+                            }
+                            applied = false;
+                        }
+                    }
+                }
                 What::CrashAfter => act.crash_sender_after = true,
             }
             if let Some(c) = &cur {
